@@ -1325,8 +1325,11 @@ impl Archive {
             // Try to read the listfile
             match self.read_file("(listfile)") {
                 Ok(listfile_data) => {
-                    // Parse the listfile
-                    match special_files::parse_listfile(&listfile_data) {
+                    // Parse the listfile; `;` and `#` only have their listfile
+                    // meaning on lines that do not name a file of this archive
+                    match special_files::parse_listfile_with(&listfile_data, |name| {
+                        matches!(self.find_file(name), Ok(Some(_)))
+                    }) {
                         Ok(filenames) => {
                             let mut entries = Vec::new();
 
